@@ -202,9 +202,52 @@ func genPersistCase(r *rand.Rand, cfg Cfg) Case {
 	return Case{cfg, ops}
 }
 
+// genSharedCachePersistCase: a multi-level version is loaded twice through one node cache; the
+// first tree deletes keys from the highest layer downwards (merging cached children) and
+// persists, then the second tree modifies the neighbourhood and persists; both persisted
+// versions are decoded from the store and checked against the shape invariants and the model.
+func genSharedCachePersistCase(r *rand.Rand, cfg Cfg) Case {
+	cfg.Cache = "big"
+	cfg.BF = pick(r, []uint{2, 3, 4})
+	uni := Universe(r, cfg, 20+r.Intn(50))
+	ops := []string{"new 0"}
+	m := map[uint64]uint64{}
+	for _, k := range uni {
+		m[k] = uint64(r.Intn(3))
+		ops = append(ops, opIns(0, k, m[k]))
+	}
+	ops = append(ops, "root 0 0", "pshape 0", "load 0 1", "load 0 2")
+	ks := append([]uint64{}, uni...)
+	sort.Slice(ks, func(i, j int) bool {
+		if cfg.RefLayer(ks[i]) != cfg.RefLayer(ks[j]) {
+			return cfg.RefLayer(ks[i]) > cfg.RefLayer(ks[j])
+		}
+		return ks[i] < ks[j]
+	})
+	nd := 1 + r.Intn(5)
+	if nd > len(ks) {
+		nd = len(ks)
+	}
+	for _, k := range ks[:nd] {
+		ops = append(ops, opDel(1, k, m[k]))
+	}
+	ops = append(ops, "root 1 1", "pshape 1", "iter 1", "stat 1")
+	for i := 0; i < 2+r.Intn(8); i++ {
+		k := pick(r, uni)
+		ops = append(ops, opIns(2, k, uint64(5+r.Intn(3))))
+	}
+	ops = append(ops, "root 2 2", "pshape 2", "iter 2", "stat 2", "pshape 0", "load 2 3", "iter 3")
+	return Case{cfg, ops}
+}
+
 func famPersist(f *FamCtx) {
-	f.Report.Rule = "1-5 cycles of (batch of inserts/updates/deletes, sometimes empty, sometimes delete-to-empty) -> MakeRoot on a recording store without cache (every Store call's name and bytes compared with the model's encoder and BLAKE2b) -> shape decoded by the harness from the stored bytes (C09 invariants evaluated in Go, graph compared with the model) -> reload through a JSON round-trip of the Root; non-trivial = reached height >= 1 and changed height"
-	f.Gen = func() Case { return genPersistCase(f.Rand, RandCfg(f.Rand)) }
+	f.Report.Rule = "1-5 cycles of (batch of inserts/updates/deletes, sometimes empty, sometimes delete-to-empty) -> MakeRoot on a recording store without cache (every Store call's name and bytes compared with the model's encoder and BLAKE2b) -> shape decoded by the harness from the stored bytes (C09 invariants evaluated in Go, graph compared with the model) -> reload through a JSON round-trip of the Root; one case in six: a multi-level version loaded twice through one node cache, interior keys deleted in one tree, the other modified afterwards, both persisted versions decoded and checked; non-trivial = reached height >= 1 and changed height"
+	f.Gen = func() Case {
+		if f.Rand.Intn(6) == 0 {
+			return genSharedCachePersistCase(f.Rand, RandCfg(f.Rand))
+		}
+		return genPersistCase(f.Rand, RandCfg(f.Rand))
+	}
 	n := f.N(200, 8000)
 	for i := 0; i < n; i++ {
 		f.RunTreeCase(f.Gen(), exactRunner, multiLevel)
